@@ -128,3 +128,9 @@ package service
 //@   flag checks=-index
 //@   at sql_select.Ge lower-date-covers-range-start: typeis(arg0, "*sql.RawObject") && unbox(arg0, "*sql.RawObject").val == "date" ==> fmtDay <= fdiv(l.DateFrom.UnixNano(), 86400000000000)
 //@   at sql_select.Le upper-date-covers-range-end: typeis(arg0, "*sql.RawObject") && unbox(arg0, "*sql.RawObject").val == "date" ==> fmtDay >= fdiv(l.DateTo.UnixNano(), 86400000000000)
+
+// Profile types are read from the profile series index (dated by UTC day).
+//@ func (*ProfService).ProfileTypes [C13]
+//@   flag checks=-index,-assert
+//@   at sql_select.Ge lower-date-covers-window-start: isDateCol(arg0) ==> fmtDay <= fdiv(start.UnixNano(), 86400000000000)
+//@   at sql_select.Le upper-date-covers-window-end: isDateCol(arg0) ==> fmtDay >= fdiv(end.UnixNano(), 86400000000000)
